@@ -295,6 +295,8 @@ def run(res: Results, idx: Index, tier: str) -> None:
     run_operand_role_separation(res, idx)
     from .c01_resize import run_resize_nearest
     run_resize_nearest(res, idx)
+    from .c01_windows import run_dynamic_window_starts
+    run_dynamic_window_starts(res, idx)
     _rule_i(res, idx, tier)
     if not getattr(res, "_nested_xref", False):
         # dimension arithmetic that enters the graph as values (reshape targets, slice limits) is served from LowerDimExpr's memo
